@@ -47,7 +47,7 @@ ASSUMPTIONS = [
     "custom filter_by_ids implementations used here honour the documented contract",
 ]
 
-KINDS = ["plain", "custom", "customsort", "customfilter", "custominplace", "fixturesuite", "concurrent"]
+KINDS = ["plain", "custom", "customsort", "customfilter", "custominplace", "fixturesuite", "concurrent", "filterwithlen", "lazy"]
 
 
 def classes():
@@ -89,9 +89,43 @@ def classes():
         return testtools.ConcurrentTestSuite(
             CustomFilter(tests), lambda suite: [HashableSuite(list(testtools.iterate_tests(suite)))])
 
+    class FilterWithLen(unittest.TestSuite):
+        """A custom suite whose filter_by_ids returns a NEW suite (as the contract allows) and that has a __len__:
+        a new suite that ends up empty is falsy - and still the answer."""
+
+        def filter_by_ids(self, ids):
+            return FilterWithLen([filter_by_ids(t, ids) for t in self])
+
+        def __len__(self):
+            return self.countTestCases()
+
+    class Lazy(unittest.TestSuite):
+        """A suite that materialises its tests on first use: __iter__ REBINDS self._tests then."""
+
+        def __init__(self, tests=()):
+            super().__init__()
+            self._pending = list(tests)
+
+        def _materialise(self):
+            if self._pending is not None:
+                self._tests = list(self._pending)
+                self._pending = None
+
+        def __iter__(self):
+            self._materialise()
+            return iter(self._tests)
+
+        def countTestCases(self):
+            self._materialise()
+            return super().countTestCases()
+
+        def run(self, result, debug=False):
+            self._materialise()
+            return super().run(result, debug)
+
     return {"plain": unittest.TestSuite, "custom": Custom, "customsort": CustomSort,
             "customfilter": CustomFilter, "custominplace": CustomInPlace, "fixturesuite": fixture_suite,
-            "concurrent": concurrent}
+            "concurrent": concurrent, "filterwithlen": FilterWithLen, "lazy": Lazy}
 
 
 class _OnlyContains:
